@@ -4,9 +4,10 @@ package core
 
 // Contracts for codec.go, codec_c.go and codec_s.go, read by the rcvc verifier in /verif (comment-only; adds no code).
 
-//@ use resp
+//@ use resp slot
 
 //@ func parseLen
+//@   use respdef
 //@   props C08 C12
 //@   flags overflow
 //@   modifies nothing
@@ -43,3 +44,73 @@ package core
 //@   ensures[taxonomy] (result1 != nil && result1 != codec.ErrInvalidResp) ==> (result1 == codec.EmptyLine || result1 == codec.ShortLine || result1 == codec.ErrLFNotFound)
 //@   ensures[incomplete] (result1 == codec.ShortLine || result1 == codec.ErrLFNotFound) ==> result0 == nil
 //@   ensures[samebuf] buf.buf == old(buf.buf)
+//@   ensures[frame] result1 == nil ==> bulk_ok(buf.buf, old(buf.r)) && buf.r == bulk_next(buf.buf, old(buf.r)) && result0 == bulk_data(buf.buf, old(buf.r))
+
+//@ define fragkey(buf, n) = ite(n >= 1, str(bulk_data(buf.buf, old(buf.r))), "")
+//@ define argsinv(buf, n, i) = codec.bwf(buf) && buf.buf == old(buf.buf) && buf.r >= old(buf.r)
+//@     && args_ok(buf.buf, i, old(buf.r)) && buf.r == args_end(buf.buf, i, old(buf.r)) && args_snoc(buf.buf, i, old(buf.r))
+//@     && args_unfold(buf.buf, i, old(buf.r))
+
+//@ func CRespCodec.Default
+//@   props C02 C08 C12
+//@   requires c != nil && resp != nil && resp.Body != nil && buf != nil && codec.bwf(buf) && n >= 0
+//@   ensures[wf] codec.bwf(buf) && buf.buf == old(buf.buf) && buf.r >= old(buf.r)
+//@   ensures[args] result == nil ==> args_ok(buf.buf, n, old(buf.r)) && buf.r == args_end(buf.buf, n, old(buf.r))
+//@   ensures[taxonomy] (result != nil && result != codec.ErrInvalidResp) ==> (result == codec.EmptyLine || result == codec.ShortLine || result == codec.ErrLFNotFound)
+//@   ensures[noeffect] result != nil ==> len(resp.Body) == old(len(resp.Body))
+//@   ensures[frag.has@C02] result == nil ==> has(resp.Body, keyslot(fragkey(buf, n))) && resp.Body[keyslot(fragkey(buf, n))] != nil
+//@   ensures[frag.peer@C02] result == nil ==> resp.Body[keyslot(fragkey(buf, n))].Peer == resp
+//@   ensures[frag.key@C02] result == nil ==> resp.Body[keyslot(fragkey(buf, n))].Key == fragkey(buf, n)
+//@   ensures[frag.req@C02] result == nil ==> bytes_eq(resp.Body[keyslot(fragkey(buf, n))].Req, buf.buf[0:buf.r])
+//@   loop 0
+//@     invariant 0 <= i && i <= n && argsinv(buf, n, i)
+//@     invariant i == 0 ==> key == "" && slot == 0
+//@     invariant i >= 1 ==> key == str(bulk_data(buf.buf, old(buf.r))) && slot == keyslot(key)
+//@     decreases n - i
+
+//@ define evalkey(buf, n) = ite(n >= 3, str(bulk_data(buf.buf, args_end(buf.buf, 2, old(buf.r)))), "")
+
+//@ func CRespCodec.Eval
+//@   props C02 C08 C12
+//@   requires c != nil && resp != nil && resp.Body != nil && buf != nil && codec.bwf(buf) && n >= 0
+//@   ensures[wf] codec.bwf(buf) && buf.buf == old(buf.buf) && buf.r >= old(buf.r)
+//@   ensures[args] result == nil ==> args_ok(buf.buf, n, old(buf.r)) && buf.r == args_end(buf.buf, n, old(buf.r))
+//@   ensures[taxonomy] (result != nil && result != codec.ErrInvalidResp) ==> (result == codec.EmptyLine || result == codec.ShortLine || result == codec.ErrLFNotFound)
+//@   ensures[arity@C17] (n < 3) ==> resp.Type == codec.ReqWrongArgumentsNumber
+//@   ensures[type@C17] (n >= 3) ==> resp.Type == old(resp.Type)
+//@   ensures[noeffect] result != nil ==> len(resp.Body) == old(len(resp.Body))
+//@   ensures[frag.has@C02] result == nil ==> has(resp.Body, keyslot(evalkey(buf, n))) && resp.Body[keyslot(evalkey(buf, n))] != nil
+//@   ensures[frag.peer@C02] result == nil ==> resp.Body[keyslot(evalkey(buf, n))].Peer == resp
+//@   ensures[frag.key@C02] result == nil ==> resp.Body[keyslot(evalkey(buf, n))].Key == evalkey(buf, n)
+//@   ensures[frag.req@C02] result == nil ==> bytes_eq(resp.Body[keyslot(evalkey(buf, n))].Req, buf.buf[0:buf.r])
+//@   loop 0
+//@     invariant 0 <= i && i <= n && argsinv(buf, n, i)
+//@     invariant i <= 2 ==> key == "" && slot == 0
+//@     invariant i >= 3 ==> key == str(bulk_data(buf.buf, args_end(buf.buf, 2, old(buf.r)))) && slot == keyslot(key)
+//@     invariant resp.Type == ite(n < 3, codec.ReqWrongArgumentsNumber, old(resp.Type))
+//@     decreases n - i
+
+//@ func CRespCodec.Frag1
+//@   props C08 C12
+//@   requires c != nil && resp != nil && buf != nil && codec.bwf(buf) && n >= 0
+//@   ensures[wf] codec.bwf(buf) && buf.buf == old(buf.buf) && buf.r >= old(buf.r)
+//@   ensures[args] result == nil ==> args_ok(buf.buf, n, old(buf.r)) && buf.r == args_end(buf.buf, n, old(buf.r))
+//@   ensures[taxonomy] (result != nil && result != codec.ErrInvalidResp) ==> (result == codec.EmptyLine || result == codec.ShortLine || result == codec.ErrLFNotFound)
+//@   ensures[frame] resp.Body == old(resp.Body) && resp.Type == old(resp.Type) && resp.Owner == old(resp.Owner)
+//@   loop 0
+//@     invariant 0 <= i && i <= n && argsinv(buf, n, i) && resp.Frags != nil
+//@     invariant resp.Body == old(resp.Body) && resp.Type == old(resp.Type) && resp.Owner == old(resp.Owner)
+//@     decreases n - i
+
+//@ func CRespCodec.Frag2
+//@   props C08 C12
+//@   requires c != nil && resp != nil && buf != nil && codec.bwf(buf) && n >= 0
+//@   ensures[wf] codec.bwf(buf) && buf.buf == old(buf.buf) && buf.r >= old(buf.r)
+//@   ensures[args] (result == nil && n % 2 == 0) ==> args_ok(buf.buf, n, old(buf.r)) && buf.r == args_end(buf.buf, n, old(buf.r))
+//@   ensures[taxonomy] (result != nil && result != codec.ErrInvalidResp) ==> (result == codec.EmptyLine || result == codec.ShortLine || result == codec.ErrLFNotFound)
+//@   ensures[frame] resp.Body == old(resp.Body) && resp.Type == old(resp.Type) && resp.Owner == old(resp.Owner)
+//@   loop 0
+//@     invariant 0 <= i && i % 2 == 0 && (n % 2 == 0 ==> i <= n) && argsinv(buf, n, i) && resp.Frags2 != nil
+//@     invariant args_snoc(buf.buf, i + 1, old(buf.r))
+//@     invariant resp.Body == old(resp.Body) && resp.Type == old(resp.Type) && resp.Owner == old(resp.Owner)
+//@     decreases n - i
